@@ -15,6 +15,8 @@ import (
 	"strconv"
 	"strings"
 	"time"
+
+	"golang.org/x/tools/go/ssa"
 )
 
 type PropConfig struct {
@@ -229,6 +231,69 @@ func cmdCheck(args []string) int {
 	}
 	workers := runtime.NumCPU()
 	sv.SolveAll(all, workers, nil)
+	// A failed no-overflow obligation is not by itself a violation of the property: Go defines
+	// signed overflow as wrap-around.  The function is re-verified with exactly those sites
+	// modelled as wrapping; whatever the property needs must then hold with the wrapped values.
+	var wrapNotes []string
+	for round := 0; round < 3; round++ {
+		failed := map[string][]int{}
+		for _, o := range all {
+			if o.Kind == "overflow" && o.Result != "unsat" && !strings.HasPrefix(o.Fn, "lemma:") {
+				if i := strings.LastIndex(o.Name, "overflow#"); i >= 0 {
+					if n, err := strconv.Atoi(o.Name[i+len("overflow#"):]); err == nil {
+						failed[o.Fn] = append(failed[o.Fn], n)
+					}
+				}
+			}
+		}
+		if len(failed) == 0 {
+			break
+		}
+		var redo []*Obligation
+		for fnName, ords := range failed {
+			fn := g.FindFunc(fnName)
+			if fn == nil {
+				continue
+			}
+			if g.wrapSites == nil {
+				g.wrapSites = map[*ssa.Function]map[int]bool{}
+			}
+			if g.wrapSites[fn] == nil {
+				g.wrapSites[fn] = map[int]bool{}
+			}
+			for _, n := range ords {
+				g.wrapSites[fn][n] = true
+			}
+			obls, sm, err := g.obligationsFor(fnName)
+			if err != nil {
+				continue
+			}
+			keep := all[:0:0]
+			for _, o := range all {
+				if o.Fn != fnName {
+					keep = append(keep, o)
+				}
+			}
+			for _, o := range obls {
+				o.Fn = fnName
+			}
+			all = append(keep, obls...)
+			ks := smokes[:0:0]
+			for _, o := range smokes {
+				if !strings.HasPrefix(o.Name, fnName+"/") {
+					ks = append(ks, o)
+				}
+			}
+			smokes = append(ks, sm...)
+			redo = append(redo, obls...)
+			unitOf[fnName].Obls = len(obls)
+			sort.Ints(ords)
+			note := fmt.Sprintf("%s: no-overflow obligation(s) %v not discharged; those operations are modelled with Go's wrap-around semantics and the function was re-verified", fnName, ords)
+			wrapNotes = append(wrapNotes, note)
+			fmt.Println("note:", note)
+		}
+		sv.SolveAll(redo, workers, nil)
+	}
 	sv.smokeOnly = true
 	sv.SolveAll(smokes, workers, nil)
 	sv.smokeOnly = false
@@ -324,6 +389,24 @@ func cmdCheck(args []string) int {
 			fmt.Printf("VIOLATION property=%s replay=%s unit=%s input=%s\n", *prop, rp, su.name, rr.Input)
 		} else if rr.Ran {
 			fmt.Printf("PROOF-STALE function=%s reason=%q bounded-fallback=passed (%d cases)\n", su.name, su.reason, rr.Cases)
+		} else if groupRan, groupCases := func() (bool, int) {
+			// no run-time check of this function alone: the property's bounded group
+			// harnesses exercise it; their violations are reported below on their own
+			ran, cases := len(pc.Bounded) > 0, 0
+			for _, b := range pc.Bounded {
+				br := racCache["bounded:"+b]
+				if br == nil {
+					br = g.RacSearch(*repo, *verif, b, nil, sv, *tier)
+					racCache["bounded:"+b] = br
+				}
+				if !br.Ran {
+					ran = false
+				}
+				cases += br.Cases
+			}
+			return ran, cases
+		}(); groupRan {
+			fmt.Printf("PROOF-STALE function=%s reason=%q bounded-fallback=%s (%d cases; failures, if any, are reported as bounded violations)\n", su.name, su.reason, strings.Join(pc.Bounded, ","), groupCases)
 		} else {
 			// neither proof nor bounded check possible: cannot decide
 			violations++
@@ -383,6 +466,7 @@ func cmdCheck(args []string) int {
 	sort.Strings(assumptions)
 	assumptions = append(assumptions, pc.Assumptions...)
 	assumptions = append(assumptions, pc.Meta...)
+	assumptions = append(assumptions, wrapNotes...)
 	assumptions = append(assumptions,
 		"A1: go/ssa (x/tools v0.29.0, naive form) and the translation rules of /verif/govc read Go as the compiler implements it",
 		"A2: an `unsat` answer of z3 5.1.0 / z3 4.8.12 / cvc5 1.0 is correct",
